@@ -177,10 +177,18 @@ def mutate(text, rng):
     toks = TOKEN.findall(text)
     if not toks:
         toks = [""]
-    k = rng.randrange(8)
+    k = rng.randrange(10)
     for _ in range(1 + rng.randrange(3)):
         i = rng.randrange(len(toks))
-        if k == 0:
+        if k in (7, 8):
+            # a run of repeated word / operator tokens (`not not not`, `forall forall`, `- - -`, `..  ..`)
+            words = [n for n, t in enumerate(toks) if not t.isspace() and (t.isalpha() or t in ("-", "..", "not", "$"))]
+            kw = [n for n in words if toks[n] in ("not", "forall", "exists", "and", "or", "-")]
+            pool = kw if (kw and rng.random() < 0.7) else words
+            if pool:
+                j = rng.choice(pool)
+                toks[j:j + 1] = [toks[j], " "] * (1 + rng.randrange(4)) + [toks[j]]
+        elif k == 0:
             del toks[i]
             if not toks:
                 toks = [""]
